@@ -38,5 +38,28 @@ if b in s:
     s = s[:s.index(b) + len(b)] + "\n" + text + s[s.index(e):]
 else:
     s = s.replace("## Appendix A — what the IR looks like", b + "\n" + text + e + "\n\n## Appendix A — what the IR looks like", 1)
+# Appendix E: the rules as implemented (from the evidence files written by the last run of every check)
+ap = ["## Appendix E — rules per property as implemented (generated from `evidence/Cxx.json`)\n",
+      "One line per rule: id, what it decides, obligations discharged on the current tree. Rule ids with a `Cxx.` prefix and the tag",
+      "`[shared]` are rule groups owned by another property's module, run here because this property depends on that mechanism.\n"]
+ed = os.path.join(VERIF, "evidence")
+for f in sorted(os.listdir(ed)):
+    if not f.endswith(".json"):
+        continue
+    ev = json.load(open(os.path.join(ed, f)))
+    rules = ev.get("coverage", {}).get("rules") or ev.get("rules") or {}
+    ap.append("\n**%s**\n" % f[:-5])
+    if isinstance(rules, dict):
+        items = rules.items()
+    else:
+        items = [(r.get("id"), r) for r in rules]
+    for rid, r in items:
+        ap.append("* `%s` — %s *(%s/%s)*" % (rid, (r.get("rule") or r.get("text") or "").replace("|", "/"), r.get("discharged"), r.get("obligations")))
+atext = "\n".join(ap) + "\n"
+b2, e2 = "<!-- BEGIN APPENDIX E -->", "<!-- END APPENDIX E -->"
+if b2 in s:
+    s = s[:s.index(b2) + len(b2)] + "\n" + atext + s[s.index(e2):]
+else:
+    s = s.rstrip("\n") + "\n\n" + b2 + "\n" + atext + e2 + "\n"
 open(p, "w").write(s)
-print("section 8 regenerated")
+print("section 8 and appendix E regenerated")
